@@ -7,6 +7,8 @@ B = 'shadow-symbolic execution of the LLVM IR of the real code (fpsym) + z3 (QF_
 CLAIMS = {
  'C01': dict(engine='fpsym', text='bounded symbolic execution of the real load/refine/construct/evaluate call tree with every model value symbolic; each reproduction obligation is decided by z3 for all value arrays of the path class',
              note='reals instead of IEEE doubles on symbolic data (tolerance 1e-9*(1+N)); dims<=4, depth<=4, outputs<=2, budgeted path classes for value-dependent refinement; Wavelet excluded; clang-14, fpsym, z3 trusted', tech=B),
+ 'C20': dict(engine='fpsym', text='bounded symbolic execution of the real ParticleSwarm / ParticleSwarmState code: positions, velocities, random stream, objective values and domain verdicts are symbolic; z3 enumerates path classes (branch-tree search) and decides the book-keeping obligations for all inputs of each class',
+             note='reals instead of doubles on symbolic data; particles<=2, dims<=2, <=3 iterations over two calls with one state edit between; budgeted path classes; concrete coefficients; private cache read with -fno-access-control; one open known finding (clearCache with a never-set best slot)', tech=B),
  'C19': dict(engine='fpsym', text='bounded symbolic execution of the real GradientDescent code with an SMT solver deciding every obligation for all callback values of each path class; classes enumerated by the solver up to a coverage certificate or the class budget',
              note='reals instead of IEEE doubles on symbolic data; dims<=2, cap<=4, concrete stepsize parameters; clang-14, fpsym pass/runtime, z3 trusted', tech=B),
 }
